@@ -232,7 +232,7 @@ def apply_op(c, op):
         if d % 2:
             v.type = ir.TensorType(ir.DataType.FLOAT)
             v.shape = ir.Shape([2])
-        if d % 5 == 4 and nodes:
+        if d % 5 == 4 and nodes and getattr(c, "allow_pending", True):
             # an initializer entry whose data is not attached (stripped / late-bound weights): described, consumed, no tensor
             v = ir.Value(name=c.fresh("pending"), type=ir.TensorType(ir.DataType.FLOAT), shape=ir.Shape([2, "K"]))
             if b % 2:
